@@ -53,6 +53,13 @@ func Lookalikes() []Lookalike {
 		pkg("sync_newcond", "sync", "package sync\n\nfunc NewCond(v uint64) uint64 {\n\treturn v + 1\n}\n", "\treturn sync.NewCond(x) + y\n"),
 		pkg("util", "util", "package util\n\nfunc DPrintf(lvl uint64, p *uint64, v uint64) {\n\t*p = v\n}\n", "\tp := new(uint64)\n\tutil.DPrintf(1, p, x)\n\treturn *p + y\n"),
 		pkg("primitive", "primitive", "package primitive\n\nfunc UInt64ToString(v uint64) uint64 {\n\treturn v + 2\n}\n", "\treturn primitive.UInt64ToString(x) + y\n"),
+		// user functions named like the GooseLang library identifiers the translation emits unqualified
+		one("libname_break", "func Break() uint64 {\n\treturn 1\n}\n", "\tvar i uint64\n\tfor {\n\t\ti = i + 1\n\t\tif i > 2 {\n\t\t\tbreak\n\t\t}\n\t}\n\treturn Break() + i + x + y\n"),
+		one("libname_newslice", "func NewSlice(n uint64) uint64 {\n\treturn n\n}\n", "\tys := make([]uint64, 3)\n\treturn uint64(len(ys)) + NewSlice(1) + x + y\n"),
+		one("libname_mapget", "func MapGet(n uint64) uint64 {\n\treturn n\n}\n", "\tm := make(map[uint64]uint64)\n\tm[1] = x\n\treturn m[1] + MapGet(y)\n"),
+		// the real log / fmt packages: the call becomes a comment, together with the effects of its arguments
+		la("log_args_effect", map[string]string{"la_log_args_effect/a.go": "package la\n\nimport \"log\"\n\nfunc bump(p *uint64) uint64 {\n\t*p = *p + 1\n\treturn *p\n}\n\nfunc F(x uint64, y uint64) uint64 {\n\tp := new(uint64)\n\tlog.Println(bump(p))\n\treturn *p + x + y\n}\n"}),
+		la("fmt_args_effect", map[string]string{"la_fmt_args_effect/a.go": "package la\n\nimport \"fmt\"\n\nfunc bump(p *uint64) uint64 {\n\t*p = *p + 1\n\treturn *p\n}\n\nfunc F(x uint64, y uint64) uint64 {\n\tp := new(uint64)\n\tfmt.Println(bump(p))\n\treturn *p + x + y\n}\n"}),
 		// builtin names taken by user functions of another arity (a translator that trusts the spelling indexes missing arguments)
 		one("len0", "func len() uint64 {\n\treturn 42\n}\n", "\treturn len() + x\n"),
 		one("cap0", "func cap() uint64 {\n\treturn 42\n}\n", "\treturn cap() + x\n"),
